@@ -12,6 +12,11 @@
         X a b eps depth k fam np p.. <fexpr> Integrate(f,a,b,eps,depth) whose integrand abandons the integration (throws) at
                                              its k-th evaluation: answered `nan 0 k inf -inf`; when the call needs fewer
                                              than k evaluations it completes and is answered like I
+        XD a b eps k .. / XM a b k .. / XF a b prec k ..   the same for the calls D, M (the three evaluations of its
+                                             Find_Epsilon count) and F
+        O a b method fam np p.. <fexpr>      Integrate(f,a,b,method) with another method of the string overload ("Trapezoidal",
+                                             "Gauss-Legendre", ...; not part of the property): history only, answered `0 0 0 inf -inf`;
+                                             XO a b method k ..: abandoned at the k-th evaluation (if it gets that far), same answer
         eps may be the token @ : the value returned by the latest F of the sequence (0 when there is none)
      nest <outer> a b [eps [depth]] <inner> [eps|prec [depth]] fam np p.. <lo> <hi> <g> <E>
         re-entrant integrand: the outer call (I: Integrate(F,a,b,eps,depth), D: default depth, M: string overload) integrates
@@ -53,37 +58,44 @@ let handler r =
   | "seq" ->
       let k = integer r in
       let last = ref 0.0 in
-      let abandoned = ref [] in
+      let nat_tl n = let rec go acc n = if n <= 0 then acc else go (S acc) (n - 1) in go O n in
       let eps_tok () = match word r with "@" -> !last | w -> (match w with "nan" -> Float.nan | "inf" -> Float.infinity | "-inf" -> Float.neg_infinity | _ -> float_of_string w) in
+      let silent = ref [] in
       let rec parse i = if i >= k then [] else begin
-        let c = match word r with
-          | "I" -> let a = num r in let b = num r in let eps = eps_tok () in let d = integer r in
-              skip_family r; let f = fun1 (parse_fexpr r) in CInt (f, a, b, eps, z_of_int d)
-          | "D" -> let a = num r in let b = num r in let eps = eps_tok () in
-              skip_family r; let f = fun1 (parse_fexpr r) in CDef (f, a, b, eps)
-          | "M" -> let a = num r in let b = num r in
-              skip_family r; let f = fun1 (parse_fexpr r) in CMeth (f, a, b)
-          | "X" -> let a = num r in let b = num r in let eps = eps_tok () in let d = integer r in
-              let k = integer r in
-              skip_family r; let f = fun1 (parse_fexpr r) in
-              let (_, t) = integrate fops f a b eps (z_of_int d) in
-              if List.length t >= k then abandoned := (i, k) :: !abandoned;
-              CInt (f, a, b, eps, z_of_int d)
-          | "F" -> let a = num r in let b = num r in let p = num r in
-              skip_family r; let f = fun1 (parse_fexpr r) in
-              last := find_epsilon fops f a b p; CFind (f, a, b, p)
+        let w0 = word r in
+        let ab = String.length w0 >= 1 && w0.[0] = 'X' in
+        let kind = if ab then (if String.length w0 = 1 then "I" else String.sub w0 1 (String.length w0 - 1)) else w0 in
+        let a = num r in let b = num r in
+        let eps = if kind = "I" || kind = "D" then eps_tok () else 0.0 in
+        let d = if kind = "I" then integer r else 0 in
+        let p = if kind = "F" then num r else 0.0 in
+        if kind = "O" then ignore (word r);
+        let kx = if ab then integer r else 0 in
+        skip_family r; let f = fun1 (parse_fexpr r) in
+        let c = match kind with
+          | "I" -> CInt (f, a, b, eps, z_of_int d)
+          | "D" -> CDef (f, a, b, eps)
+          | "M" -> CMeth (f, a, b)
+          | "F" -> CFind (f, a, b, p)
+          | "O" -> silent := i :: !silent; CFind (f, a, a, 0.0)     (* another method of the string overload: history only *)
           | o -> failwith ("unknown_call_" ^ o) in
-        c :: parse (i + 1) end in
+        (* the request (call, k) of the model: k = 0 when the integrand never throws; "last" follows the model's answer *)
+        let kreq = if ab && kind <> "O" then (if kx < 1 then 0 else kx) else 0 in
+        if kind = "F" then (match run_call_ab fops c (nat_tl kreq) with
+         | Some ((v, _), _) -> last := v
+         | None -> ());
+        (c, nat_tl kreq) :: parse (i + 1) end in
       let cs = parse 0 in
-      List.iteri (fun i ((v, w), t) ->
-          match List.assoc_opt i !abandoned with
-          | Some k ->      (* an abandoned call leaves nothing behind: the state of the model is empty *)
-              put_f Float.nan; put_i 0; put_i k; put_f Float.infinity; put_f Float.neg_infinity
-          | None ->
+      List.iteri (fun i (o, (_, kreq)) ->
+          match o with
+          | None ->      (* abandoned at its k-th evaluation: no answer, and nothing is left behind (the state of the model is empty) *)
+              put_f Float.nan; put_i 0; put_i (int_of_nat kreq); put_f Float.infinity; put_f Float.neg_infinity
+          | Some ((v, w), t) ->
+          if List.mem i !silent then begin put_f 0.0; put_i 0; put_i 0; put_f Float.infinity; put_f Float.neg_infinity end else begin
           put_f v; put_b w; put_i (List.length t);
           put_f (List.fold_left (fun a x -> if x < a then x else a) Float.infinity t);
-          put_f (List.fold_left (fun a x -> if x > a then x else a) Float.neg_infinity t))
-        (run_seq fops () cs)
+          put_f (List.fold_left (fun a x -> if x > a then x else a) Float.neg_infinity t) end)
+        (List.combine (run_seq_ab fops () cs) cs)
   | "nest" ->
       let ok = word r in
       let a = num r in let b = num r in
